@@ -131,6 +131,7 @@ func renderBoth(names []string, sources map[string]string, globals data.Map, ent
 // inCommonExpr: the expression lies in the subset both backends define (DESIGN.md §4).
 func inCommonExpr(env *Env, e *E) bool {
 	ok := true
+	countedKeys := map[*E]bool{}
 	var walk func(x *E)
 	walk = func(x *E) {
 		if !ok {
@@ -214,10 +215,33 @@ func inCommonExpr(env *Env, e *E) bool {
 			_ = a
 		case "call":
 			switch x.Op {
+			case "length":
+				// the number of keys does not depend on their order
+				if len(x.A) == 1 && x.A[0].K == "call" && x.A[0].Op == "keys" {
+					countedKeys[x.A[0]] = true
+				}
 			case "keys":
-				if v, st := env.Eval(x.A[0]); st != stOK || kindOf(v) != "map" || len(v.(data.Map)) > 1 {
+				if v, st := env.Eval(x.A[0]); st != stOK || kindOf(v) != "map" || (len(v.(data.Map)) > 1 && !countedKeys[x]) {
 					ok = false
 					return
+				}
+				// otto's for-in visits a property once per object of the prototype chain that has it
+				// (keys(augmentMap(['k': 1], ['k': 2])) has two entries there, one in node) and was seen
+				// to miss inherited properties of an object without own ones: an engine artefact. The
+				// keys of an augmented map are judged only when both maps are non-empty and disjoint.
+				if a := x.A[0]; a.K == "call" && a.Op == "augmentMap" && len(a.A) == 2 {
+					m1, s1 := env.Eval(a.A[0])
+					m2, s2 := env.Eval(a.A[1])
+					if s1 != stOK || s2 != stOK || kindOf(m1) != "map" || kindOf(m2) != "map" || len(m1.(data.Map)) == 0 || len(m2.(data.Map)) == 0 {
+						ok = false
+						return
+					}
+					for k := range m1.(data.Map) {
+						if _, dup := m2.(data.Map)[k]; dup {
+							ok = false
+							return
+						}
+					}
 				}
 			case "round":
 				// ties and negative numbers round differently (Math.round vs away from zero): keep to safe values
